@@ -19,7 +19,8 @@ TIMEOUT = {"quick": 300, "thorough": 2400}
 RULE = ("exchanges = (a) ServerProxy calls / notifications / batches with ASCII and multi-byte arguments of sizes 0, 1, "
         "1023-1025, 64 KiB sent to a raw recording peer (TCP and Unix) under generated URL paths and query strings "
         "(unreserved, sub-delims, percent-escapes; empty path; unix+http) and both content types; (b) 15 URL schemes; "
-        "(c) request bodies sent by a raw client to real Simple/Pooled servers in every single split point (small "
+        "(c) request bodies sent by a raw client to real Simple/Pooled servers (default buffered handler, and a handler "
+        "subclass with rbufsize = 0 whose reads come back short) in every single split point (small "
         "bodies) and random multi-splits, plus bodies just over the server's 10 MiB read chunk with a 2/3/4-byte "
         "character straddling the chunk boundary; (d) the real Transport.parse_response fed by a scripted read() object "
         "in every single split and random multi-splits, identity and gzip; gzip replies end to end; (e) the CGI "
@@ -162,13 +163,20 @@ def digest(s):
 
 
 def server_reassembly(ctx, rng):
+    import time
     import jsonrpclib.config
+    from jsonrpclib.SimpleJSONRPCServer import SimpleJSONRPCRequestHandler
+
+    class UnbufferedHandler(SimpleJSONRPCRequestHandler):
+        """A handler reading straight from the socket: read(n) returns what has arrived so far."""
+        rbufsize = 0
+
     for kind in ("simple", "pooled"):
-        for fam in ("tcp", "unix"):
+        for fam, handler in (("tcp", None), ("unix", None), ("tcp", UnbufferedHandler), ("unix", UnbufferedHandler)):
             ctype = rng.choice(["application/json-rpc", "application/json"])
             config = jsonrpclib.config.Config(content_type=ctype)
             fx = dm.Fixture(dm.std_reg("default"), version=2.0, config=config)
-            with servers.running(kind, fam, fx) as srv:
+            with servers.running(kind, fam, fx, handler=handler) as srv:
                 srv.server.register_function(digest, "digest")
                 rc = servers.RawClient(srv)
                 small = ['{"jsonrpc":"2.0","id":1,"method":"digest","params":["%s"]}' % s
@@ -178,11 +186,15 @@ def server_reassembly(ctx, rng):
                     arg = json.loads(body)["params"][0]
                     splits = [[i] for i in range(1, len(data))]
                     splits += [sorted(rng.sample(range(1, len(data)), rng.randint(2, 6))) for _ in range(ctx.pick(5, 60))]
+                    if handler is not None:
+                        splits = splits[::7][:12]   # each segment is followed by a pause so that reads come back short
                     for seg in splits:
-                        status, headers, payload = rc.post(data, segments=seg)
+                        status, headers, payload = rc.post(data, segments=seg,
+                                                           pause=(lambda: time.sleep(0.003)) if handler else None)
                         judge_server_reply(ctx, status, headers, payload, arg, ctype,
-                                           {"part": "server", "server": kind, "family": fam, "body": body, "segments": seg},
-                                           "split")
+                                           {"part": "server", "server": kind, "family": fam, "body": body, "segments": seg,
+                                            "unbuffered_handler": handler is not None},
+                                           "split-short-reads" if handler else "split")
                 # notifications / invalid bodies: framing of empty and error replies
                 for body, label in (('{"jsonrpc":"2.0","method":"echo","params":["é"]}', "notification"),
                                     ('{"jsonrpc":"2.0","method"', "malformed"), ("", "empty")):
@@ -197,10 +209,12 @@ def server_reassembly(ctx, rng):
                     body = '{"jsonrpc":"2.0","id":1,"method":"digest","params":["%s"]}' % arg
                     data = body.encode("utf-8")
                     seg = sorted(rng.sample(range(1, len(data)), 8))
-                    status, headers, payload = rc.post(data, segments=seg)
+                    status, headers, payload = rc.post(data, segments=seg,
+                                                       pause=(lambda: time.sleep(0.002)) if handler else None)
                     judge_server_reply(ctx, status, headers, payload, arg, ctype,
                                        {"part": "server", "server": kind, "family": fam, "body_len": len(data),
-                                        "segments": seg}, "medium")
+                                        "segments": seg, "unbuffered_handler": handler is not None},
+                                       "medium-short-reads" if handler else "medium")
     ctx.sample({"part": "server", "body": '{"jsonrpc":"2.0","id":1,"method":"digest","params":["é"]}', "segments": [52]})
 
 
@@ -416,6 +430,8 @@ def cgi(ctx, rng):
 
 
 def run(ctx):
+    import socket
+    socket.setdefaulttimeout(30)   # a hung exchange must surface as an exception, not as a dead shard
     rng = ctx.rng
     parts = [client_framing, server_reassembly, response_parser]
     for i, part in enumerate(parts):
@@ -439,6 +455,8 @@ def finalize(m, tier):
                   ("judged:schemes", 15), ("judged:cgi-replies", 8), ("judged:gzip-end-to-end", 8)):
         if c.get(k, 0) < lo:
             out.append("monitor counter %s too low (%d < %d)" % (k, c.get(k, 0), lo))
+    if not any(x.endswith("split-short-reads") for x in m["cells"]):
+        out.append("no segmented body was sent to an unbuffered (short-read) handler")
     if not any(x.endswith("chunk-boundary") for x in m["cells"]):
         out.append("no body across the server's read-chunk boundary was sent")
     return out
